@@ -1337,6 +1337,12 @@ impl DcpsDomainParticipant {
             .any(|x| subscription_handle.as_ref() == &x.key().value)
         {
             data_writer.remove_matched_subscription(&subscription_handle);
+            // The reader is gone: stop sending to it and waiting for its acknowledgments
+            data_writer
+                .writer
+                .transport_writer
+                .delete_matched_reader(Guid::from(<[u8; 16]>::from(subscription_handle)));
+            data_writer.notify_acknowledged_waiters();
 
             data_writer
                 .status_condition
@@ -2679,8 +2685,17 @@ impl DcpsDomainParticipant {
                 data_writer
                     .matched_subscription_list
                     .retain(|subscription| subscription.key.value[..12] != prefix);
+                data_writer.notify_acknowledged_waiters();
             }
         }
+
+        // Forget the endpoints of the removed participant, otherwise they are matched again
+        self.domain_participant
+            .discovered_reader_list
+            .retain(|r| r.dds_subscription_data.key.value[..12] != prefix);
+        self.domain_participant
+            .discovered_writer_list
+            .retain(|w| w.dds_publication_data.key.value[..12] != prefix);
 
         self.remove_matched_publications_detector(prefix);
         self.remove_matched_publications_announcer(prefix);
